@@ -38,6 +38,9 @@ type lockCfg struct {
 	V0Tk2    string     `json:"v0_tk2,omitempty"`
 	Jailed   []jailSpec `json:"jailed,omitempty"`
 	JailSecs int64      `json:"jail_secs,omitempty"`
+	// EqualDurations: the exit delay equals the unlock delay (legal: only exit < unlock is refused),
+	// so ordinary and exit unlocks of one block share one maturity slot
+	EqualDurations bool `json:"exit_delay_equals_unlock_delay,omitempty"`
 }
 
 type jailSpec struct {
@@ -68,6 +71,9 @@ func (c lockCfg) genesis() *sim.GenesisCfg {
 		}
 		cfg.Vals = append(cfg.Vals, sim.ValSpec{Key: sim.NewKey(fmt.Sprintf("cand-%d", len(c.Powers)+i)), Status: lockingtypes.Downgrade,
 			Locking: coins, JailedUntil: cfg.Time.Add(time.Duration(c.JailSecs) * time.Second)})
+	}
+	if c.EqualDurations {
+		cfg.LockingParams.ExitingDuration = cfg.LockingParams.UnlockDuration
 	}
 	cfg.LockingParams.MaxValidators = c.MaxValidators
 	if c.InitialReward > 0 {
